@@ -1001,7 +1001,7 @@ class Acceptor(object):
             if tok[0] in ("fld", "opt"):
                 gi += 1
                 if tok[0] == "fld" and tok[2] == "Color" and \
-                        set(["BAD", "WORSE"]) & set(x.strip() for x in (m.group(gi) or "").split(",")):
+                        set(["BAD", "WORSE", "ASSERT"]) & set(x.strip() for x in (m.group(gi) or "").split(",")):
                     return True
         return False
 
